@@ -10,6 +10,7 @@
 package simrt
 
 import (
+	"os"
 	"runtime"
 	"sync"
 	"sync/atomic"
@@ -910,10 +911,6 @@ func Escaped() any { return escaped }
 func Go(f func()) {
 	if !Active() {
 		switch procMode {
-		case 0:
-			// package initialisation, before main has said what kind of process
-			// this is: decided in StartPending
-			pendingGo = append(pendingGo, f)
 		case 1:
 			adoptOutside(f)
 		default:
@@ -934,27 +931,22 @@ func Go(f func()) {
 	go runTask(id, f)
 }
 
-var (
-	procMode  int // 0 undecided, 1 simulator process, 2 real goroutines
-	pendingGo []func()
-)
+// procMode says what a goroutine started outside a simulated run becomes: in
+// the simulator process (VSIM_MODE=run, set by the checker) a parked task that
+// the next run takes over, exactly like a library goroutine that outlived an
+// earlier run; anywhere else (the real-goroutine engine, the repository's own
+// tests on the instrumented copy) a real goroutine. Read from the environment
+// because package initialisation of the library runs before main.
+var procMode = func() int {
+	if os.Getenv("VSIM_MODE") == "run" {
+		return 1
+	}
+	return 2
+}()
 
-// StartPending tells the runtime what kind of process this is and starts the
-// goroutines the library asked for during package initialisation. In the
-// simulator process a goroutine started outside a run (an init-time worker)
-// becomes a parked task that the first run takes over, exactly like a library
-// goroutine that outlived an earlier run; elsewhere it is a real goroutine.
-func StartPending(simulator bool) {
-	procMode = 2
-	if simulator {
-		procMode = 1
-	}
-	p := pendingGo
-	pendingGo = nil
-	for _, f := range p {
-		Go(f)
-	}
-}
+// StartPending is kept for the harness's main; the mode is known from the
+// environment by the time any library package initialises.
+func StartPending(simulator bool) {}
 
 // adoptOutside registers f as a parked library task (persist, parked): it starts
 // executing when a run schedules it.
